@@ -420,18 +420,20 @@ func (d *Document) AddImageFromFile(filePath string, config *ImageConfig) (*Imag
 // generateSafeImageFileName 生成安全的图片文件名
 // 将非ASCII字符的文件名转换为安全的ASCII文件名，以确保Microsoft Word兼容性
 func generateSafeImageFileName(imageID int, originalFileName string, format ImageFormat) string {
-	// 获取文件扩展名
-	ext := filepath.Ext(originalFileName)
-	if ext == "" {
-		// 如果没有扩展名，根据格式添加
-		switch format {
-		case ImageFormatPNG:
-			ext = ".png"
-		case ImageFormatJPEG:
-			ext = ".jpeg"
-		case ImageFormatGIF:
-			ext = ".gif"
-		default:
+	// 扩展名由图片格式决定，而不是原始文件名：addImageContentType 按格式注册
+	// png/jpeg/gif 三种默认内容类型，若沿用原始扩展名（如 photo.jpg、无关的 .dat、
+	// 含空格或非ASCII字符的扩展名），媒体部件在 [Content_Types].xml 中就没有内容类型
+	var ext string
+	switch format {
+	case ImageFormatPNG:
+		ext = ".png"
+	case ImageFormatJPEG:
+		ext = ".jpeg"
+	case ImageFormatGIF:
+		ext = ".gif"
+	default:
+		ext = filepath.Ext(originalFileName)
+		if ext == "" {
 			ext = ".png"
 		}
 	}
@@ -448,6 +450,11 @@ func (d *Document) AddImageFromData(imageData []byte, fileName string, format Im
 			Xmlns:         "http://schemas.openxmlformats.org/package/2006/relationships",
 			Relationships: []Relationship{},
 		}
+	}
+
+	// 只支持 png/jpeg/gif：其他格式没有对应的内容类型，保存出的包不合法
+	if format != ImageFormatPNG && format != ImageFormatJPEG && format != ImageFormatGIF {
+		return nil, fmt.Errorf("不支持的图片格式: %s", format)
 	}
 
 	// 使用文档级别的图片ID计数器确保ID唯一性
@@ -502,6 +509,11 @@ func (d *Document) AddImageFromDataWithoutElement(imageData []byte, fileName str
 			Xmlns:         "http://schemas.openxmlformats.org/package/2006/relationships",
 			Relationships: []Relationship{},
 		}
+	}
+
+	// 只支持 png/jpeg/gif：其他格式没有对应的内容类型，保存出的包不合法
+	if format != ImageFormatPNG && format != ImageFormatJPEG && format != ImageFormatGIF {
+		return nil, fmt.Errorf("不支持的图片格式: %s", format)
 	}
 
 	// 使用文档级别的图片ID计数器确保ID唯一性
